@@ -80,4 +80,4 @@ def run(ck):
     # "data-field length equal to the number of octets after the header" also holds for a PDU whose parameters were
     # changed through its setters: the mutated-versus-fresh sequences of C11, per directive kind, under two cases
     from ..report import run_parallel
-    run_parallel(ck, "spverif.props.c11", "pdu_task", [(k.name, c) for k in PD.DIRECTIVES for c in (cases[0], cases[3 if len(cases) > 3 else -1])])
+    run_parallel(ck, "spverif.props.c11", "pdu_task", [(k.name, c) for k in PD.DIRECTIVES for c in cases[:4]])
